@@ -191,6 +191,8 @@ pub fn worker_main(args: &[String], resolve: &dyn Fn(&str) -> Option<(&'static s
         std::process::exit(2)
     });
     cx.progress.set(lo, 0, 0);
+    // the parent starts every worker with stdout on /dev/null
+    cx.stdout_null = true;
     // universe construction may need memory; the cap applies from here on
     crate::warm(name, thorough);
     cap_address_space(WORKER_AS_BYTES);
